@@ -1495,6 +1495,14 @@ def count_rule(P, E, H):
             continue
         name, spec, cmin = OPERATORS[root]
         found.add(root)
+        if name in ("take", "skip", "skip_last", "buffer_with_count", "window_with_count") and "sink_next" not in E.may(hb):
+            # a streaming operator whose item handler can never emit holds everything back until the source terminates: a source that
+            # errors or stays silent (both in C02's quantifier) then loses the items the definition hands on as they arrive
+            r.instance((root, "counting"), True, "%s: item handler has no emission" % name)
+            r.violate((root, "counting", "item handler never emits"),
+                      "%s: no path of the item handler reaches sink_next: the items its definition passes on while the source is still running are "
+                      "delivered only at completion (never, for a source that errors or stays silent)" % name, body=hb)
+            continue
         try:
             S = Summary(P, E, hb)
             ends = {}
@@ -1513,6 +1521,9 @@ def count_rule(P, E, H):
 
 def _check_operator(r, P, S, root, name, spec, cmin, hb, ends=None):
     bounds = sorted(set(S.bounds.values()))
+    if not bounds and ends:
+        # the item handler never looks at the count (a batch rewrite that only buffers): the count is what the terminal handlers compare with
+        bounds = sorted({v for e_ in ends.values() for v in e_.bounds.values()})
     ints = [g for g, k in S.cellinfo.items() if k and k[0] == "int" and any(g in p.cells or S._sym(g) in str(p.pc) for p in S.paths)]
     conts = [g for g, k in S.cellinfo.items() if k and k[0] == "cont"]
     if len(bounds) != 1:
